@@ -17,6 +17,7 @@ contract(CONN + '.send_headers', props=['C02', 'C08', 'C09', 'C10', 'C13', 'C23'
     ensures=[
         ('only-clients-open-streams-with-headers', 'implies(new, self.config.client_side)', ['C08']),
         ('new-id-above-all-earlier', 'implies(new, stream_id > wm and stream_id % 2 == own_parity(self) and 1 <= stream_id and stream_id <= 2147483647)', ['C09', 'C02']),
+        ('cleanup-precedes-creation', 'implies(new, all(k == stream_id or self.streams[k].state_machine.state != StreamState.CLOSED for k in self.streams))', ['C27', 'C10']),
         ('peer-concurrency-limit-respected', 'implies(new, open_out + 1 <= max_concurrent(self.remote_settings))', ['C10']),
         ('header-block-shape', 'header_block_ok(g_out, n0, "HeadersFrame", stream_id, self.max_outbound_frame_size)', ['C02']),
         ('end-stream-flag', '("END_STREAM" in g_out[n0].flags) == end_stream', ['C02']),
@@ -86,3 +87,29 @@ contract(CONN + '.push_stream', props=['C22', 'C13', 'C02', 'C09', 'C19', 'C29',
         ('raising-call-keeps-stream-state', 'implies(exists, %s.state.value == pst)' % SM, ['C06', 'C10']),
     ],
     canary='len(g_out) == n0')
+
+
+# ---------------------------------------------------------------------------
+# advertise_alternative_service (C24, C08, C02, C19, C29)
+AK = ('rfc_kind(%s.state.value, S_ALTSVC, %s.client, %s.headers_sent, %s.trailers_sent, %s.headers_received, '
+      '%s.trailers_received, (-1 if %s.stream_closed_by is None else %s.stream_closed_by.value))' % ((SM,) * 8))
+contract(CONN + '.advertise_alternative_service', props=['C24', 'C08', 'C02', 'C19', 'C29'],
+    args={'field_value': 'bytes', 'origin': 'optbytes', 'stream_id': 'optint'},
+    setup=conn_setup, requires=['GI(self)'],
+    let={'cst': 'self.state_machine.state.value', 'exists': 'stream_id is not None and (stream_id in self.streams)'},
+    ensures=[('only-servers-advertise', 'not self.config.client_side', ['C24', 'C08']),
+             ('exactly-one-of-origin-and-stream', '(origin is None) != (stream_id is None)', ['C24', 'C29']),
+             ('one-altsvc-frame', 'len(g_out) == len(old(g_out)) + 1 and class_name(g_out[-1]) == "AltSvcFrame" and g_out[-1].field == field_value', ['C02', 'C24']),
+             ('connection-form', 'implies(origin is not None, g_out[-1].stream_id == 0 and g_out[-1].origin == origin)', ['C24', 'C02']),
+             ('stream-form', 'implies(stream_id is not None, g_out[-1].stream_id == stream_id and len(g_out[-1].origin) == 0 and stream_id != 0)', ['C24', 'C02']),
+             ('stream-form-only-before-the-response', 'implies(stream_id is not None, exists and old(%s) == K_OK and not old(%s.headers_sent) and old(%s.state) != StreamState.CLOSED and old(%s.state) != StreamState.IDLE)' % (AK, SM, SM, SM), ['C24', 'C08']),
+             ('no-stream-state-change', 'all((k in old(self.streams)) and self.streams[k].state_machine.state == old(self.streams[k].state_machine.state) for k in self.streams)', ['C24']),
+             ('not-closed', 'cst != C_CLOSED', ['C19']),
+             ('GI', 'GI(self)')],
+    raises=[dict(exc='ValueError', when='origin is not None and stream_id is not None', iff=True, props=['C24', 'C29']),
+            dict(exc='TypeError', when='origin is None and stream_id is None', props=['C24', 'C29']),
+            dict(exc='StreamClosedError', props=['C29'], when='stream_id is not None and not (stream_id in self.streams) and stream_id <= watermark(self, stream_id)'),
+            dict(exc='NoSuchStreamError', props=['C29'], when='stream_id is not None and not (stream_id in self.streams) and stream_id > watermark(self, stream_id)'),
+            dict(exc='ProtocolError', props=['C24', 'C08', 'C19', 'C29'])],
+    on_raise=QUIET + [('raising-call-keeps-stream-state', 'implies(exists, %s.state == old(%s.state))' % (SM, SM), ['C06', 'C10'])],
+    canary='len(g_out) == len(old(g_out))')
